@@ -747,7 +747,12 @@ pub fn run_cuts(case: &Case, dir: PathBuf) -> Outcome {
             v
         }
     };
+    let sweep_t0 = std::time::Instant::now();
     for (c, padded) in offsets {
+        if sweep_t0.elapsed().as_secs() > 75 && !matches!(case.fault, Fault::Cut { at: Some(_) }) {
+            stats.inc("cut_sweeps_cut_short_by_time");
+            break;
+        }
         let work = dir.join("cut");
         crate::fsutil::remove_tree(&work);
         if crate::fsutil::copy_tree(&live, &work).is_err() {
@@ -933,7 +938,14 @@ pub fn run_damage(case: &Case, dir: PathBuf) -> Outcome {
     let all_values = matches!(case.fault, Fault::Damage { all_values: true, .. });
     let mut deferred: Option<(Violation, Option<Fault>)> = None;
     if violation.is_none() {
+        // a sweep is bounded in time as well (thorough classes alter every byte to every value:
+        // what does not fit is counted, not waited for - the per-case watchdog is for hangs)
+        let sweep_t0 = std::time::Instant::now();
         for (i, p) in sweep {
+            if sweep_t0.elapsed().as_secs() > 75 && !matches!(case.fault, Fault::Damage { at: Some(_), .. }) {
+                stats.inc("damage_sweeps_cut_short_by_time");
+                break;
+            }
             let ob = orig[i as usize];
             let nb = if all_values {
                 ob ^ p
